@@ -346,3 +346,13 @@ B('j17_public_sniff_method_html_first', ['C17'], 'R17.c',
         return "application/json" if self._guess_json(body) else "text/plain"
 
 ''' + _SR_HEAD))
+# _serialize_to_resp: the default renderer as fall-through (the mime was normalised to a table value just before)
+T('j17_json_fallthrough', ['C17'],
+  (RS, _SR_DISPATCH + '        return Response(str(context), mimetype="text/plain")\n',
+       "        if resp_mime == 'text/html':\n            return self.tabular_render(context, _route)\n        return self.json_render(context)\n"))
+B('j17_json_fallthrough_swapped', ['C17'], 'R17.c',
+  (RS, _SR_DISPATCH + '        return Response(str(context), mimetype="text/plain")\n',
+       "        if resp_mime == 'text/html':\n            return self.json_render(context)\n        return self.tabular_render(context, _route)\n"))
+T('j17_named_mime_tests', ['C17'],
+  (RS, _SR_DISPATCH, "        wants_json = resp_mime == 'application/json'\n        wants_html = 'text/html' == resp_mime\n"
+       "        if wants_json:\n            return self.json_render(context)\n        if wants_html:\n            render_table = self.tabular_render\n            return render_table(context, _route)\n"))
